@@ -1930,7 +1930,7 @@ def _run(ctx, rng, thorough):
     kinds = ["right", "right", "other", "zero", "n", "neg", "stranger"]
     depth = 6 if thorough else 4
     cases = []
-    for sid0, j in ((0, 0), (1, 2), (2, 1), (5, 0), (6, 1), (7, 0)) if thorough else ((1, 2),):
+    for sid0, j in ((0, 0), (1, 2), (5, 0), (6, 1)) if thorough else ((1, 2),):
         alpha = [_sign_op(sid0, _prv(sid0, j, "right")), _sign_op(sid0, _prv(sid0, j, "other")),
                  _sign_op(3, _prv(sid0, j, "right")), _sign_op((sid0 + 1) % 3, _prv(sid0, j, "right")), "P"]
         n0 = _nonce0(sid0, j, "real")
@@ -1972,7 +1972,7 @@ def _run(ctx, rng, thorough):
         ctx.check("nonce.psbt_partial_sign", {"k": rng.randrange(3), "ops": [rng.choice(["right", "right", "other", "stranger", "noagg"])
                                                                              for _ in range(rng.randrange(1, 7))]})
     # every spelling of the caller-held nonce through both entry points, different sessions included
-    sdepth = 5 if thorough else 3
+    sdepth = 4 if thorough else 3     # 7 ops x 5 spellings: length 5 alone cost 6 min of the thorough tier
     cases = []
     for spelling in SPELLINGS:
         k = rng.randrange(3)
@@ -2125,10 +2125,10 @@ def _run(ctx, rng, thorough):
     # ---------------------------------------------------------------- backend flag; objects holding a bindings object
     if INSTALLED:
         d = 5 if thorough else 4
-        deep = "dsc"[ctx.seed % 3]        # quick: one class at full depth (by seed), the other two one shorter
+        deep = "dsc"[ctx.seed % 3]        # one class at full depth (by seed), the other two one shorter
         for kinds in "dsc":
             balpha = ["T1", "F", "B1", "B2", "U0", "U1", "C1"] + (["D0"] if kinds == "c" else [])
-            dk = d if (thorough or kinds == deep) else d - 1
+            dk = d if kinds == deep else d - 1
             cases = []
             for flag0 in (True, False):
                 for ops in _all_histories(balpha, dk):
@@ -2260,7 +2260,7 @@ def _run(ctx, rng, thorough):
     # ---------------------------------------------------------------- threads: a search, not a proof
     for k in range(ctx.n(2, 40)):
         ctx.check("threads.search", {"seed": ctx.seed * 1000 + k, "threads": 8, "flips": True})
-    for k in range(ctx.n(2, 10)):
+    for k in range(ctx.n(2, 6)):
         ctx.check("threads.cold_start", {"seed": ctx.seed * 100 + k, "reps": 25 if not thorough else 80, "threads": 8})
     _lap(ctx, "threads")
     ctx.note("threads.search and threads.cold_start are SEARCHES over real CPython schedules (8 threads, switch interval "
